@@ -824,8 +824,11 @@ func c20Generated(c *core.Ctx, n int) {
 			sel = append(sel, string(l))
 		}
 	}
-	if len(sel) == 0 {
-		sel = []string{string(letters[nf-1])}
+	if len(sel) < 2 { // at least two questions must be generated
+		sel = []string{string(letters[nf-2]), string(letters[nf-1])}
+		if r.Intn(2) == 0 {
+			sel = []string{string(letters[1]), string(letters[nf-1])}
+		}
 	}
 	gen := strings.Join(sel, ", ")
 	if r.Intn(5) == 0 {
